@@ -1,6 +1,6 @@
 (** C06 -- Lists and records are shared by reference; indexed write then read agree. *)
 From Pakhi Require Import Base Float64 Syntax Tables Lexer Interp.
-From Pakhi.Proofs Require Import Assoc Scope ListOps HeapRW Unfold PathRW.
+From Pakhi.Proofs Require Import Assoc Scope ListOps HeapRW Unfold PathRW WF WFOps Skeleton.
 Local Open Scope nat_scope.
 
 (* Reference semantics: a value of list or record type *is* an address (VList a / VRec a).  Declaring another
@@ -100,8 +100,9 @@ Theorem C06_indexed_assignment_statement : forall code fuel m x xp i0 idx e p m'
   stmt_at code (m_pc m) = Some (FAssign AReassign x xp (i0 :: idx) (Some e) p) ->
   interp code (S fuel) m = Ok m' ->
   exists v m1 c pre ix m2 t w,
-    eval code fuel e m = Ok (v, m1) /\ lookup_var x (m_scopes m1) = Some c /\
+    eval code fuel e m = Ok (v, m1) /\ lookup_var x (m_scopes m1) <> None /\
     eval_indexes (eval code fuel) (i0 :: idx) m1 = Ok (pre ++ [ix], m2) /\
+    lookup_var x (m_scopes m2) = Some c /\
     resolve (m_heap m2) c pre = Some t /\ selects (m_heap m2) w t ix /\
     m' = next (set_heap m2 (write (m_heap m2) w v)).
 Proof. exact indexed_assignment_statement. Qed.
@@ -113,3 +114,15 @@ Theorem C06_index_expression_reads_the_path : forall code is path b m c t,
   forall fuel, eval code (S (length is + fuel)) (index_chain b is) m = Ok (t, m).
 Proof. exact index_chain_reads_the_path. Qed.
 Print Assumptions C06_index_expression_reads_the_path.
+
+(* the container written by  x[i1]..[in] = e  is the one x denotes after the index expressions have run, in the scope that
+   held x before them: the index expressions (calls included) cannot add or remove a name in any scope, so the innermost
+   scope holding x is the same before and after, and x is still there -- re-resolving the name (the model) and indexing
+   the scope found before (the Rust code) read the same variable *)
+Theorem C06_index_expressions_keep_the_target : forall code, code_ok code -> forall fuel is m path m2 x,
+  mwf code m -> forallb expr_ok is = true ->
+  eval_indexes (eval code fuel) is m = Ok (path, m2) ->
+  skel (m_scopes m2) = skel (m_scopes m) /\ holder x (m_scopes m2) = holder x (m_scopes m) /\
+  (lookup_var x (m_scopes m) <> None -> lookup_var x (m_scopes m2) <> None).
+Proof. exact index_expressions_keep_the_target. Qed.
+Print Assumptions C06_index_expressions_keep_the_target.
